@@ -249,7 +249,17 @@ impl<'a, T> ChordsV2<'a, T> {
             old(self).verif_queue@.len() < 32 ==> r.is_none() && final(self).verif_queue@ == old(self).verif_queue@.push(item),
             old(self).verif_queue@.len() >= 32 ==> r == Some(old(self).verif_queue@[0]) && final(self).verif_queue@ == old(self).verif_queue@.drop_first().push(item),
     { self.verif_queue.push_back(item) }
+    /// what one tick of chords v2 lets through to the layout (NOT under contract here: unit chordtab)
+    pub uninterp spec fn spec_tick_out(&self, active_layer: u16) -> Seq<Queued>;
+    #[verifier::external_body]
+    pub fn tick_chv2(&mut self, active_layer: u16) -> (r: SmolQueue)
+        ensures r@ == old(self).spec_tick_out(active_layer), r@.len() <= 16,
+    { unimplemented!() }
+    #[verifier::external_body]
+    pub fn get_action_chv2(&mut self) -> (r: QueuedAction<'a, T>) { unimplemented!() }
 }
+/// keyberon/src/chord.rs: `SmolQueue = ArrayDeque<Queued, SMOL_Q_LEN (16), Wrapping>`
+pub type SmolQueue = arraydeque::ArrayDeque<Queued, 16, arraydeque::behavior::Wrapping>;
 //@ item keyberon/src/layout.rs struct Layout
 //@@ no-derives
 //@@ keep-vis
@@ -299,6 +309,12 @@ impl<'a, const C: usize, const R: usize, T: 'a + Copy> Layout<'a, C, R, T> {
             final(self).verif_post_oneshot@ == final(self).oneshot,
             final(self).verif_events@ == old(self).verif_events@,
             final(self).verif_dequeued@ == old(self).verif_dequeued@,
+            // ASSUMED from reading do_action and its callees: none of them names `self.queue` (the
+            // event queue is written by `event` and `tick` only)
+            final(self).queue@ == old(self).queue@,
+            // ASSUMPTION (u16 arithmetic, the same one waiting_into_* state as a precondition): the
+            // press-to-decision delay of whatever is left waiting fits
+            delays_fit(final(self).waiting, final(self).extra_waiting@),
             // ASSUMED from reading do_action: the only assignments to tap_dance_eager in it store
             // Some(fresh counter with num_taps 1); an existing counter is never cleared
             old(self).tap_dance_eager is Some ==> final(self).tap_dance_eager is Some
@@ -331,6 +347,10 @@ spec fn decided_delay<'a, T>(w: WaitingState<'a, T>) -> int {
 }
 
 //@ raw
+/// every undecided key's press-to-decision delay fits u16 (ASSUMPTION, machine arithmetic)
+spec fn delays_fit<'a, T>(w: Option<WaitingState<'a, T>>, extra: Seq<WaitingState<'a, T>>) -> bool {
+    forall|idx: i8| #![trigger waiting_at(w, extra, idx)] (waiting_at(w, extra, idx) matches Some(ws) ==> decided_delay(ws) <= u16::MAX)
+}
 /// THE call a decision makes: the chosen action, at the key's coordinate, with the delay accumulated
 /// since the press, not as a one-shot, in a state from which the waiting key has been removed
 spec fn decision_call<'a, T>(w: WaitingState<'a, T>, chosen: &'a Action<'a, T>, w0: Option<WaitingState<'a, T>>, extra0: Seq<WaitingState<'a, T>>, idx: i8) -> DoCall<'a, T> {
@@ -351,6 +371,10 @@ spec fn decision_call<'a, T>(w: WaitingState<'a, T>, chosen: &'a Action<'a, T>, 
         waiting_at(old(self).waiting, old(self).extra_waiting@, idx) matches Some(w) ==> decided_delay(w) <= u16::MAX,
     ensures
         final(self).verif_dequeued@ == old(self).verif_dequeued@,
+        // the event queue is not touched (frame; through the assumed frame of do_action)
+        final(self).queue@ == old(self).queue@,
+        // the u16 assumption is passed on (through the one on do_action)
+        delays_fit(old(self).waiting, old(self).extra_waiting@) ==> delays_fit(final(self).waiting, final(self).extra_waiting@),
         // nothing is waiting at idx: nothing happens
         waiting_at(old(self).waiting, old(self).extra_waiting@, idx) is None ==>
             r is NoEvent && final(self).verif_calls@ == old(self).verif_calls@
@@ -730,6 +754,10 @@ impl<'a, const C: usize, const R: usize, T: 'a + Copy> Layout<'a, C, R, T> {
         ensures
             final(self).verif_dequeued@ == old(self).verif_dequeued@.push(queue),
             final(self).verif_calls@ == old(self).verif_calls@,
+            // ASSUMED from reading dequeue and its callees: none of them names `self.queue`
+            final(self).queue@ == old(self).queue@,
+            // ASSUMPTION (u16 arithmetic), as on do_action
+            delays_fit(final(self).waiting, final(self).extra_waiting@),
     { unimplemented!() }
 }
 
@@ -991,3 +1019,39 @@ impl vstd::std_specs::convert::FromSpecImpl<Event> for Queued {
         final(self).verif_calls@ == old(self).verif_calls@, final(self).verif_dequeued@ == old(self).verif_dequeued@,
         final(self).waiting == old(self).waiting, final(self).extra_waiting@ == old(self).extra_waiting@,
         final(self).states@ == old(self).states@,
+
+// ---------------------------------------------------------------------------------------
+// F7 (C09 "keys that do not complete a chord are not swallowed: delivered in their original order";
+// C04 "no event is lost"): the chords-v2 prologue of Layout::tick.  Everything chords v2 lets through
+// in this tick reaches the state machine: afterwards the events handed to `dequeue` followed by the
+// event queue are what they were before followed by this tick's output, in order - also when the
+// 32-slot queue is full (the evicted OLDEST event is processed at once, after every undecided key has
+// been forced into hold, exactly as Layout::event does).  Before the fix the statement was
+// `self.queue.extend(..drain(0..))`, whose contract (Extend for a Wrapping ArrayDeque takes only what
+// fits: verif_extend_drain below, the same one unit chordtab assumes and Kani cross-checks) drops
+// what does not fit.
+//@ raw
+impl<T, const N: usize> arraydeque::ArrayDeque<T, N, arraydeque::behavior::Wrapping> {
+    /// `a.extend(b.drain(0..))` (R49/R60): b is emptied; a takes only what fits
+    #[verifier::external_body]
+    pub fn verif_extend_drain<const M: usize>(&mut self, mut other: arraydeque::ArrayDeque<T, M, arraydeque::behavior::Wrapping>)
+        ensures final(self)@ == old(self)@ + (if other@.len() <= N - old(self)@.len() { other@ } else { other@.take(N - old(self)@.len()) }),
+    { unimplemented!() }
+}
+//@ fragment keyberon/src/layout.rs fn tick in `Layout<'a, C, R, T>` block-after `if let Some(chv2) = self.chords_v2.as_mut() {` as tick_forward_chv2
+//@@ wrap impl<'a, const C: usize, const R: usize, T: 'a + Copy> Layout<'a, C, R, T>
+//@@ attr #[verifier::loop_isolation(false)]
+//@@ header
+fn tick_forward_chv2(&mut self, chv2: &mut ChordsV2<'a, T>, active_layer: u16)
+//@@ resub R60 * /self\.queue\.extend\((.*?)\.drain\(0\.\.\)\);/ => `self.queue.verif_extend_drain(\1);`
+//@@ resub R60 * /let mut chv2_events = ([^;]*);/ => `let mut chv2_events = \1; let ghost e0 = chv2_events@; let ghost q0 = self.queue@; let ghost d0 = self.verif_dequeued@; proof { assert(d0 + q0 + e0 =~= old(self).verif_dequeued@ + old(self).queue@ + e0); }`
+//@@ resub R60 * /for queued in chv2_events\.drain\(0\.\.\) \{/ => `while let Some(queued) = chv2_events.pop_front() invariant self.verif_dequeued@ + self.queue@ + chv2_events@ =~= d0 + q0 + e0, self.queue@.len() <= 32, delays_fit(self.waiting, self.extra_waiting@), decreases chv2_events@.len(), {`
+//@@ resub R60 * /if let Some\(overflow\) = self\.queue\.push_back\(queued\) \{/ => `if let Some(overflow) = self.queue.push_back(queued) { let ghost q1 = self.queue@; let ghost d1 = self.verif_dequeued@;`
+//@@ resub R60 * /for i in -1\.\.\(EXTRA_WAITING_LEN as i8\) \{/ => `for i in -1..(EXTRA_WAITING_LEN as i8) invariant self.queue@ == q1, self.verif_dequeued@ == d1, delays_fit(self.waiting, self.extra_waiting@), {`
+//@@ spec
+    requires
+        old(self).queue@.len() <= 32,
+        // ASSUMPTION (u16 arithmetic)
+        delays_fit(old(self).waiting, old(self).extra_waiting@),
+    ensures
+        final(self).verif_dequeued@ + final(self).queue@ =~= old(self).verif_dequeued@ + old(self).queue@ + old(chv2).spec_tick_out(active_layer),
